@@ -152,13 +152,13 @@ pub fn cderead(args: &[String]) {
             match cdecao::io::cdedb::read(f, track, ic, ia, ff.as_deref(), of.as_deref()) {
                 Err(m) => json!({"err": m}),
                 Ok((ps, cs, amb)) => {
-                    let (eid, tid, _tn, _nic, nia) = amb.verif_fields();
+                    let (eid, tid, _tn, nic, nia) = amb.verif_fields();
                     json!({
                         "participants": ps.iter().map(|p| { let (_i, d, n, ch) = cdecao::verif::participant_fields(p); json!({"dbid": d, "name": n, "choices": ch}) }).collect::<Vec<_>>(),
                         "courses": cs.iter().map(|c| { let (_i, d, n, mn, mx, ins, fb, ob, fx, hid) = cdecao::verif::course_fields(c);
                             json!({"dbid": d, "name": n, "min": mn, "max": mx, "instr": ins, "fixed": fx, "hidden": hid, "factor": f32::from_bits(fb), "offset": f32::from_bits(ob), "fbits": fb, "obits": ob}) }).collect::<Vec<_>>(),
                         "quality": amb.external_assignment_quality_info.as_ref().map(|q| { let (ni, pens) = q.verif_fields(); json!([ni, pens]) }),
-                        "event_id": eid, "track_id": tid, "ign_regs": nia})
+                        "event_id": eid, "track_id": tid, "ign_regs": nia, "ign_courses": nic})
                 }
             }
         });
